@@ -42,6 +42,10 @@ def subst(t, env, this):
         repl = env[head]
     elif head == 'This' and this is not None:
         repl = this
+    elif this is not None and 'This' in parts[1:] and parts[:parts.index('This')] == this['q'].split('::')[:-1]:
+        # the documented qualified spelling ns::This::X: the class's own namespaces in front of This
+        parts = parts[parts.index('This'):]
+        repl = this
     if repl is None:
         return {'c': t['c'], 'q': t['q'], 'm': t['m'], 't': targs}
     if len(parts) == 1:
